@@ -192,7 +192,7 @@ MNoDupOf(m) ==
 XInitState(f) == [ph |-> "idle", d |-> DInitState(f), m |-> MInitState,
                   t |-> 0, done |-> <<>>]
 
-XOut(ok, via, tc, t) == [ok |-> ok, via |-> via, tc |-> tc, t |-> t]
+XOut(ok, via, tc, rc, t) == [ok |-> ok, via |-> via, tc |-> tc, rcode |-> rc, t |-> t]
 
 \* after a step of the UDP leg: finished?
 XAfterUdp(x, d2) ==
@@ -202,12 +202,13 @@ XAfterUdp(x, d2) ==
           THEN [x EXCEPT !.d = d2, !.ph = "tcp",
                          !.m = MQuiesce(MSubmitOp(MInitState, 1, d2.q))]
           ELSE [x EXCEPT !.d = d2, !.ph = "done",
-                         !.done = <<XOut(o.ok, "udp", o.ok /\ o.f.tc, x.t)>>]
+                         !.done = <<XOut(o.ok, "udp", o.ok /\ o.f.tc,
+                                         IF o.ok THEN o.f.rcode ELSE 0, x.t)>>]
 
 XAfterTcp(x, m2) ==
   IF m2.done[1] = <<>> THEN [x EXCEPT !.m = m2]
   ELSE [x EXCEPT !.m = m2, !.ph = "done",
-                 !.done = <<XOut(m2.done[1][1].ok, "tcp", FALSE, x.t)>>]
+                 !.done = <<XOut(m2.done[1][1].ok, "tcp", FALSE, 0, x.t)>>]
 
 XSubmitOp(x, qq) == XAfterUdp([x EXCEPT !.ph = "udp"], DApply(x.d, DMkOp("submit", qq, NoDgram)))
 XUdpOp(x, o)    == XAfterUdp(x, DApply(x.d, o))
@@ -217,8 +218,8 @@ XTickOp(x)      == LET x1 == [x EXCEPT !.t = @ + 1]
                       ELSE IF x.ph = "tcp" THEN XAfterTcp(x1, MApply(x.m, MMkOp("tick", 0, 0, 0)))
                       ELSE x
 
-\* (d) a truncated datagram answer is never handed to the caller: it is
-\* retried over the stream
+\* (d) a truncated datagram answer - whatever its rcode - is never handed
+\* to the caller: it is retried over the stream
 XNoTruncatedOf(x) == \A k \in 1..Len(x.done) : ~(x.done[k].via = "udp" /\ x.done[k].tc)
 XAtMostOnceOf(x)  == Len(x.done) <= 1 /\ (x.ph = "done" <=> Len(x.done) = 1)
 \* TCP is used only after a truncated UDP answer
@@ -227,4 +228,138 @@ XTcpOnlyAfterTcOf(x) == x.m.nconnect > 0 =>
 \* budget: UDP budget plus the stream response timeout
 XOnTimeOf(x) == \A k \in 1..Len(x.done) :
                   x.done[k].t <= (1 + MaxRetries) * RD + MRT
+--------------------------------------------------------------------------
+(* redundant and load_balancer (src/net/client/redundant.rs,                *)
+(* load_balancer.rs) over abstract upstreams (assume/guarantee: an upstream *)
+(* that is asked hands back one result for that request: an answer, a       *)
+(* SERVFAIL or REFUSED reply, or an error).                                 *)
+(*                                                                          *)
+(* request_impl asks Transport::run for the upstream list (GetRT); the load *)
+(* balancer drops the upstreams that are over their burst limit; Query      *)
+(* tries the rest one after the other (Probe): the next one is started when *)
+(* the current one handed back a result that is to be deferred, or when its *)
+(* estimated response time has passed; the first result that is not to be   *)
+(* deferred is the request's result; when every upstream of the list was    *)
+(* asked and all results are deferred, the first deferred reply, else the   *)
+(* first deferred error.  With no usable upstream the load balancer         *)
+(* synthesizes SERVFAIL, redundant reports an error.                        *)
+(*                                                                          *)
+(* Left open (the code decides by measured response times and a 5 % random  *)
+(* probe): the order in which the usable upstreams are tried, and how many  *)
+(* ticks the estimated response time is (at least one tick must pass).      *)
+(* Result kinds: "answer", "servfail", "refused", "error".                  *)
+
+BNone == "none"
+BReq0 == [st |-> "none", cands |-> {}, asked |-> <<>>,
+          res |-> [u \in 1..3 |-> BNone], acc |-> 0, defr |-> 0, defe |-> 0,
+          tk |-> FALSE, out |-> <<>>]
+
+\* kind "lb" | "red"; cfg = [de, dr, ds]: defer transport errors / REFUSED / SERVFAIL
+BInitState(kind, cfg, nreq) ==
+  [kind |-> kind, cfg |-> cfg, ups |-> <<>>, reqs |-> [r \in 1..nreq |-> BReq0]]
+
+BDeferrable(b, k) == \/ k = "error" /\ b.cfg.de
+                     \/ k = "refused" /\ b.cfg.dr
+                     \/ k = "servfail" /\ b.cfg.ds
+
+SeqRange(sq) == {sq[i] : i \in 1..Len(sq)}
+
+\* Connection::add.  mb = -1: no burst limit; iv: burst interval in ticks
+BAddOp(b, mb, iv) == [b EXCEPT !.ups = Append(@, [mb |-> mb, iv |-> iv, burst |-> 0, age |-> 0])]
+
+\* GetRT: a burst interval that has passed is restarted; an upstream whose
+\* burst count exceeds max_burst is not offered
+BRestart(up) == IF up.mb >= 0 /\ up.age >= up.iv THEN [up EXCEPT !.age = 0, !.burst = 0] ELSE up
+BSubmitOp(b, r) ==
+  LET ups2 == [u \in 1..Len(b.ups) |-> BRestart(b.ups[u])]
+      usable == {u \in 1..Len(ups2) : ups2[u].mb < 0 \/ ups2[u].burst <= ups2[u].mb}
+  IN [b EXCEPT !.ups = ups2,
+               !.reqs[r] = [BReq0 EXCEPT !.st = "active", !.cands = usable]]
+
+BLast(rq) == rq.asked[Len(rq.asked)]
+\* the upstream asked last has handed back a result that is deferred
+BLastDeferred(b, rq) ==
+  IF rq.asked = <<>> THEN FALSE
+  ELSE rq.res[BLast(rq)] # BNone /\ BDeferrable(b, rq.res[BLast(rq)])
+BUnasked(rq) == rq.cands \ SeqRange(rq.asked)
+BAllResolved(rq) == \A u \in SeqRange(rq.asked) : rq.res[u] # BNone
+
+\* an upstream is asked (ChanReq::Query: the burst count goes up)
+BAskedOk(b, u, r) ==
+  LET rq == b.reqs[r]
+  IN /\ rq.st = "active" /\ rq.acc = 0 /\ u \in BUnasked(rq)
+     /\ \/ rq.asked = <<>>
+        \/ BLastDeferred(b, rq)
+        \/ rq.tk                     \* the estimated response time passed
+BAskedOp(b, u, r) == [b EXCEPT !.reqs[r].asked = Append(@, u), !.reqs[r].tk = FALSE,
+                               !.ups[u].burst = @ + 1]
+
+\* an upstream hands back its result
+BResolveOk(b, u, r) == b.reqs[r].st = "active" /\ u \in SeqRange(b.reqs[r].asked)
+                       /\ b.reqs[r].res[u] = BNone
+BResolveOp(b, u, r, k) ==
+  LET rq  == b.reqs[r]
+      q1 == [rq EXCEPT !.res[u] = k, !.tk = FALSE]
+  IN [b EXCEPT !.reqs[r] =
+        IF ~BDeferrable(b, k) THEN [q1 EXCEPT !.acc = IF @ = 0 THEN u ELSE @]
+        ELSE IF k = "error" THEN [q1 EXCEPT !.defe = IF @ = 0 THEN u ELSE @]
+        ELSE [q1 EXCEPT !.defr = IF @ = 0 THEN u ELSE @]]
+
+\* the outcome the request must be completed with, if it must be completed
+\* now: [ok, src (0 = synthesized / none), kind]
+BOutcome(ok, src, kind) == [ok |-> ok, src |-> src, kind |-> kind]
+BMustFinish(b, r) ==
+  LET rq == b.reqs[r]
+  IN rq.st = "active" /\ (\/ rq.cands = {}
+                         \/ rq.acc # 0
+                         \/ (BUnasked(rq) = {} /\ BAllResolved(rq)))
+BFinal(b, r) ==
+  LET rq == b.reqs[r]
+  IN IF rq.cands = {}
+     THEN IF b.kind = "lb" THEN BOutcome(TRUE, 0, "servfail") ELSE BOutcome(FALSE, 0, "error")
+     ELSE IF rq.acc # 0 THEN BOutcome(rq.res[rq.acc] # "error", rq.acc, rq.res[rq.acc])
+     ELSE IF rq.defr # 0 THEN BOutcome(TRUE, rq.defr, rq.res[rq.defr])
+     ELSE BOutcome(FALSE, rq.defe, "error")
+BDoneOp(b, r) == [b EXCEPT !.reqs[r].st = "done", !.reqs[r].out = <<BFinal(b, r)>>]
+
+\* something the code does without waiting for anything
+BMustAsk(b, r) ==
+  LET rq == b.reqs[r]
+  IN rq.st = "active" /\ rq.acc = 0 /\ BUnasked(rq) # {}
+     /\ (rq.asked = <<>> \/ BLastDeferred(b, rq))
+BQuiescent(b) == \A r \in DOMAIN b.reqs : ~BMustFinish(b, r) /\ ~BMustAsk(b, r)
+
+BTickOp(b) ==
+  [b EXCEPT !.ups = [u \in 1..Len(b.ups) |->
+                       IF b.ups[u].mb >= 0 /\ b.ups[u].age < b.ups[u].iv
+                       THEN [b.ups[u] EXCEPT !.age = @ + 1] ELSE b.ups[u]],
+            !.reqs = [r \in DOMAIN b.reqs |->
+                        IF b.reqs[r].st = "active" /\ b.reqs[r].asked # <<>>
+                        THEN [b.reqs[r] EXCEPT !.tk = TRUE] ELSE b.reqs[r]]]
+
+\* the property, on the balancer state
+\* exactly once; the result is the request's own: it comes from an upstream
+\* that was asked for this request and handed back exactly that, or it is
+\* synthesized because there was nothing to ask
+BOwnOf(b) ==
+  \A r \in DOMAIN b.reqs :
+     LET rq == b.reqs[r]
+     IN /\ Len(rq.out) <= 1 /\ (rq.st = "done" <=> Len(rq.out) = 1)
+        /\ rq.st = "done" =>
+             LET o == rq.out[1]
+             IN IF o.src = 0 THEN rq.cands = {} \/ ~o.ok
+                ELSE o.src \in SeqRange(rq.asked) /\ rq.res[o.src] = o.kind
+\* an upstream over its limit is not asked; nobody is asked twice
+BOnlyUsableOf(b) ==
+  \A r \in DOMAIN b.reqs :
+     LET rq == b.reqs[r]
+     IN /\ SeqRange(rq.asked) \subseteq rq.cands
+        /\ Cardinality(SeqRange(rq.asked)) = Len(rq.asked)
+\* the first acceptable result wins: a request that is done with a deferred
+\* result has seen no acceptable one
+BFirstWinsOf(b) ==
+  \A r \in DOMAIN b.reqs :
+     LET rq == b.reqs[r]
+     IN (rq.st = "done" /\ rq.out[1].src # 0 /\ BDeferrable(b, rq.out[1].kind)) =>
+          \A u \in SeqRange(rq.asked) : rq.res[u] # BNone /\ BDeferrable(b, rq.res[u])
 =============================================================================
